@@ -16,6 +16,68 @@ type verifDump struct {
 	attrs []string
 	aints []int32 // values of the int32 attributes, in listing order
 	errs  int
+	// partial reads, three fixed selections per dataset (rank 1: [1..2], [2..7]; rank 2: rows 0, columns 1..2);
+	// nil where the selection was refused or failed
+	slices [][]float64
+	// per call: what each Read / attribute listing returned for each path (absent when the call failed)
+	perVals  map[string][]float64
+	perAttrs map[string][]string
+}
+
+// every call that succeeds on the cut file returns what the same call returns on the intact file
+func verifComparePerCall(cut, intact verifDump) {
+	for p, l := range cut.perAttrs {
+		w, ok := intact.perAttrs[p]
+		if !ok {
+			continue
+		}
+		vrt.Assert(len(l) == len(w), "attributes-silently-missing")
+		if len(l) == len(w) {
+			for i := range l {
+				vrt.Assert(l[i] == w[i], "attributes-silently-missing")
+			}
+		}
+	}
+	for p, v := range cut.perVals {
+		w, ok := intact.perVals[p]
+		if !ok {
+			continue
+		}
+		vrt.Assert(len(v) == len(w), "different-values-after-truncation")
+		if len(v) == len(w) {
+			for i := range v {
+				vrt.Assert(v[i] == w[i], "different-values-after-truncation")
+			}
+		}
+	}
+}
+
+func verifSliceOf(ds *Dataset, start, count []uint64) []float64 {
+	got, err := ds.ReadSlice(start, count)
+	if err != nil {
+		return nil
+	}
+	g, _ := got.([]float64)
+	return g
+}
+
+// whatever a partial read returns on the cut file equals what it returns on the intact one
+func verifCompareSlices(cut, intact verifDump) {
+	if len(cut.slices) != len(intact.slices) {
+		return
+	}
+	for i := range cut.slices {
+		c, w := cut.slices[i], intact.slices[i]
+		if c == nil || w == nil {
+			continue
+		}
+		vrt.Assert(len(c) == len(w), "different-values-after-truncation")
+		if len(c) == len(w) {
+			for k := range c {
+				vrt.Assert(c[k] == w[k], "different-values-after-truncation")
+			}
+		}
+	}
 }
 
 func verifDumpFile(name string) (d verifDump, openErr error) {
@@ -23,20 +85,36 @@ func verifDumpFile(name string) (d verifDump, openErr error) {
 	if err != nil {
 		return d, err
 	}
+	d.perVals, d.perAttrs = map[string][]float64{}, map[string][]string{}
 	f.Walk(func(p string, obj Object) {
 		d.paths = append(d.paths, p)
+		if g, ok := obj.(*Group); ok {
+			if as, err := g.Attributes(); err == nil {
+				l := []string{}
+				for _, a := range as {
+					l = append(l, a.Name)
+				}
+				d.perAttrs[p] = l
+			}
+		}
 		if ds, ok := obj.(*Dataset); ok {
 			v, err := ds.Read()
 			if err != nil {
 				d.errs++
 			} else {
 				d.vals = append(d.vals, v...)
+				d.perVals[p] = v
 			}
+			d.slices = append(d.slices,
+				verifSliceOf(ds, []uint64{1}, []uint64{2}),
+				verifSliceOf(ds, []uint64{2}, []uint64{6}),
+				verifSliceOf(ds, []uint64{0, 1}, []uint64{1, 2}))
 			l, err := ds.ListAttributes()
 			if err != nil {
 				d.errs++
 			} else {
 				d.attrs = append(d.attrs, l...)
+				d.perAttrs[p] = append([]string{}, l...)
 				for _, an := range l {
 					v, err := ds.ReadAttribute(an) // the value decoder runs on whatever the file holds
 					if err != nil {
@@ -113,10 +191,10 @@ func verifTruncateScriptOpt(ver uint8, lo, hi int, chunked bool) {
 	}
 }
 
-func VerifH_C17_api_truncate_v2_head() { verifTruncateScript(2, 0, 160) }
-func VerifH_C17_api_truncate_v2_tail() { verifTruncateScript(2, 2000, 100000) }
+func VerifH_C17_api_truncate_v2_head()         { verifTruncateScript(2, 0, 160) }
+func VerifH_C17_api_truncate_v2_tail()         { verifTruncateScript(2, 2000, 100000) }
 func VerifH_C17_api_truncate_v2_mid_thorough() { verifTruncateScript(2, 160, 2000) }
-func VerifH_C17_api_truncate_v0_thorough() { verifTruncateScript(0, 0, 100000) }
+func VerifH_C17_api_truncate_v0_thorough()     { verifTruncateScript(0, 0, 100000) }
 
 // the last 130 bytes of a file that ends with a chunk index node
 func VerifH_C17_api_truncate_chunk_index_tail() { verifTruncateScriptOpt(2, 0, 130, true) }
@@ -233,6 +311,9 @@ func verifCorpusCut(rel string, sym, span int) {
 		return
 	}
 	vrt.Assert(len(cut.paths) == len(intact.paths) || cut.errs > 0, "members-silently-missing")
+	if len(cut.paths) == len(intact.paths) {
+		verifCompareSlices(cut, intact)
+	}
 	if cut.errs == 0 && intact.errs == 0 {
 		vrt.Assert(len(cut.vals) == len(intact.vals), "values-silently-missing")
 		if len(cut.vals) == len(intact.vals) {
@@ -245,5 +326,89 @@ func verifCorpusCut(rel string, sym, span int) {
 }
 
 func VerifH_C17_api_corpus_cut_with_groups() { verifCorpusCut("testdata/with_groups.h5", 8, 80) }
-func VerifH_C17_api_corpus_cut_multiple() { verifCorpusCut("testdata/multiple_datasets.h5", 8, 80) }
-func VerifH_C17_api_corpus_cut_matrix() { verifCorpusCut("testdata/matrix_2x3.h5", 8, 80) }
+func VerifH_C17_api_corpus_cut_multiple()    { verifCorpusCut("testdata/multiple_datasets.h5", 8, 80) }
+func VerifH_C17_api_corpus_cut_matrix()      { verifCorpusCut("testdata/matrix_2x3.h5", 8, 80) }
+func VerifH_C17_api_corpus_cut_contiguous()  { verifCorpusCut("testdata/simple_contiguous.h5", 8, 96) }
+
+// the same dense-attribute file (its name index is the last structure of the file) cut at every one of its last
+// 64 lengths (256 in the thorough tier): an error, or all 9 attributes with their values
+func VerifH_C17_api_truncate_dense_tail() {
+	vrt.LoopBound(200000)
+	verifDenseFile("c17e.h5")
+	intact, err := verifDumpFile("c17e.h5")
+	vrt.AssertNoErr(err, "intact-open-ok")
+	vrt.Assert(intact.errs == 0 && len(intact.attrs) == 9, "intact-reads-ok")
+	st, _ := os.Stat("c17e.h5")
+	size := int(st.Size())
+	span := 64
+	if vrt.Thorough() {
+		span = 256
+	}
+	L := size - 1 - vrt.Choice(span)
+	vrt.AssertNoErr(os.Truncate("c17e.h5", int64(L)), "truncate-ok")
+	cut, err := verifDumpFile("c17e.h5")
+	vrt.Covered("dense-tail-cut-dumped")
+	if err != nil {
+		return
+	}
+	vrt.Assert(len(cut.paths) == len(intact.paths) || cut.errs > 0, "members-silently-missing")
+	if cut.errs == 0 {
+		vrt.Assert(len(cut.attrs) == len(intact.attrs), "attributes-silently-missing")
+		if len(cut.aints) == len(intact.aints) {
+			for i := range cut.aints {
+				vrt.Assert(cut.aints[i] == intact.aints[i], "different-values-after-truncation")
+			}
+		}
+		vrt.Assert(len(cut.vals) == len(intact.vals), "values-silently-missing")
+	}
+}
+
+// reference-library corpus files cut at a forked length anywhere in a window (the whole file in the thorough tier):
+// the tree has all its members or Open fails, and every Read / attribute listing that succeeds returns what it
+// returns on the intact file (per call, not per file)
+func verifCorpusSweep(rel string, lo, hi int) {
+	vrt.LoopBound(200000)
+	raw := vrt.Corpus(rel)
+	vrt.AssertNoErr(os.WriteFile("c17w.h5", raw, 0o644), "write-ok")
+	intact, err := verifDumpFile("c17w.h5")
+	vrt.AssertNoErr(err, "intact-open-ok")
+	if hi > len(raw) {
+		hi = len(raw)
+	}
+	L := lo + vrt.Choice(hi-lo)
+	vrt.AssertNoErr(os.Truncate("c17w.h5", int64(L)), "truncate-ok")
+	cut, err := verifDumpFile("c17w.h5")
+	vrt.Covered("corpus-cut-dumped")
+	if err != nil {
+		return
+	}
+	vrt.Assert(len(cut.paths) == len(intact.paths), "members-silently-missing")
+	verifComparePerCall(cut, intact)
+	if len(cut.paths) == len(intact.paths) {
+		verifCompareSlices(cut, intact)
+	}
+}
+
+func VerifH_C17_api_corpus_sweep_with_groups() {
+	verifCorpusSweep("testdata/with_groups.h5", 1225, 1289)
+}
+func VerifH_C17_api_corpus_sweep_v0() { verifCorpusSweep("testdata/v0.h5", 1056, 1120) }
+func VerifH_C17_api_corpus_sweep_with_attributes() {
+	verifCorpusSweep("testdata/with_attributes.h5", 8800, 8864)
+}
+
+// the last 96 lengths of the same file cut into the attribute messages of /group1: known finding (an attribute
+// message that cannot be decoded is left out of the list)
+func VerifH_C17_api_corpus_sweep_with_attributes_tail() {
+	verifCorpusSweep("testdata/with_attributes.h5", 8864, 8960)
+}
+func VerifH_C17_api_corpus_sweep_with_groups_thorough() {
+	verifCorpusSweep("testdata/with_groups.h5", 1, 1<<30)
+}
+func VerifH_C17_api_corpus_sweep_v0_thorough() { verifCorpusSweep("testdata/v0.h5", 1, 1<<30) }
+func VerifH_C17_api_corpus_sweep_test_attributes_thorough() {
+	verifCorpusSweep("testdata/test_attributes.h5", 1, 1<<30)
+}
+func VerifH_C17_api_corpus_sweep_with_attributes_thorough() {
+	verifCorpusSweep("testdata/with_attributes.h5", 6000, 8864)
+}
